@@ -219,6 +219,7 @@ def shard_run(arg):
 
 def run(tier, seed, work):
     res = vp.Result("C14", tier, seed, "exploration")
+    res.after_error_routes = ['retries_with_the_completed_map']      # routes added in round 12 (a handled failure followed by ordinary work): must have observed something
     n = 10000 if tier == "quick" else 300000
     for d in vp.pmap(shard_run, [(seed, s, work) for s in vp.split(range(n), vp.NCPU)]):
         res.merge(d)
@@ -226,6 +227,7 @@ def run(tier, seed, work):
                 "has duplicate after normalisation, source depth) among descriptors with >=2 dependencies, plus (missing-id, #deps) classes")
     res.assumptions = ["id->path maps hold absolute paths (as cargo-libcnb and libcnb-test produce them)",
                        "percent-escapes, query/fragment on relative references and non-absolute source locations are not generated"]
+    res.required = list(getattr(res, "required", [])) + res.after_error_routes
     return res
 
 
